@@ -113,6 +113,12 @@ def make_bank(rng, cont, enc, parens=False):
                              moves=0 if cont else rng.choice([0, 1, 2, 4]),
                              sid=j + 1,
                              root_pieces=rng.choice([1, 1, 2])))
+    if rng.random() < 0.25:
+        # tokens spelled exactly like their tag (PTB punctuation, UH)
+        for s_ in bank:
+            for t_ in gen.tokens_of(s_['root']):
+                if rng.random() < 0.3:
+                    t_['w'] = t_['p']
     if not cont and rng.random() < 0.4 and bank:
         # the same productions once continuous and once discontinuous: a copy
         # of a continuous tree with two token positions exchanged
